@@ -34,9 +34,17 @@ def _selector_wrappers(model):
         body = [st for st in gi.node.body if not (isinstance(st, ast.Expr) and isinstance(st.value, ast.Constant))]
         names = gi.param_names(drop_self=False)
         last = body[-1] if body else None
-        if isinstance(last, ast.Return) and isinstance(last.value, ast.Call) and getattr(last.value.func, 'id', '') == 'PlateSlicer' \
-                and len(last.value.args) == 2 and len(names) == 2:
-            out.append(({names[0]: 'plate', names[1]: 'item'}, body[:-1], last.value.args[1]))
+        call_ = last.value if isinstance(last, ast.Return) and isinstance(last.value, ast.Call) else None
+        item_arg = None
+        if call_ is not None and getattr(call_.func, 'id', '') == 'PlateSlicer' and len(names) == 2:
+            ps_ = model.classes.get('PlateSlicer')
+            pnames = ps_.methods['__init__'].param_names() if ps_ is not None and '__init__' in ps_.methods else ['plate', 'item']
+            bound = dict(zip(pnames, call_.args))
+            bound.update({k.arg: k.value for k in call_.keywords if k.arg})
+            if len(pnames) == 2:
+                item_arg = bound.get(pnames[1])
+        if item_arg is not None:
+            out.append(({names[0]: 'plate', names[1]: 'item'}, body[:-1], item_arg))
         else:
             raise AnalysisError('Plate.__getitem__ no longer ends in `return PlateSlicer(self, <selector>)`')
     ps = model.classes.get('PlateSlicer')
